@@ -63,6 +63,9 @@ def check(run, prog, tier):
     c15.stored_inputs_intact(run, "C07-G", prog, [LS_ + "redfieldtensor.RedfieldRelaxationTensor",
                                                   LS_ + "tdredfieldtensor.TDRedfieldRelaxationTensor",
                                                   LS_ + "lindbladform.LindbladForm", LS_ + "lindbladform.ElectronicLindbladForm"])
+    run.rule("C07-H", "where the operator form conjugates a system operator it takes the Hermitian conjugate (conjugate and "
+                      "transpose), which is what the basis change of the tensor form corresponds to in every basis", minimum=2)
+    rule_H(run, prog)
 
 
 def rule_E(run, prog):
@@ -362,3 +365,44 @@ def rule_D(run, prog):
                    message="Lambda_m must accumulate integral x K_m[a,b] with the same bath index in "
                            "both routines", loc=td.loc(),
                    sample={"TI": norm(s1[0]) if s1 else None, "TD": norm(s2[0]) if s2 else None})
+
+
+ADJOINT_IDIOMS = ("numpy.conj(numpy.transpose(%s))", "numpy.transpose(numpy.conj(%s))", "numpy.conjugate(numpy.transpose(%s))",
+                  "numpy.transpose(numpy.conjugate(%s))", "%s.conj().T", "%s.T.conj()", "numpy.conj(%s.T)", "numpy.conj(%s).T")
+
+
+def rule_H(run, prog):
+    """'Act identically on every operator in every basis': the operator form evaluates K rho Ld + Lm rho K+ - K+ Lm rho -
+    rho Ld K.  Km, Lm and Ld are brought into a basis by the similarity transformation; K+ is formed from Km on the
+    spot.  The plain transpose is K+ only while Km is real - in the eigenbasis of a complex Hermitian operator it is
+    the complex conjugate of K+, and the operator form no longer agrees with the four-index form (which transforms
+    covariantly).  In apply() and in the conversion to the tensor form every array named as the conjugate of Km is
+    conj(transpose(Km[..])) and is not forced into a real array."""
+    rid = "C07-H"
+    cls = prog.cls(LS + "redfieldtensor.RedfieldRelaxationTensor")
+    for nme in ("apply", "_convert_operators_2_tensor"):
+        f = cls.methods[nme]
+        prog.consulted.add(f.relpath)
+        fills = [n for n in ast.walk(f.node) if isinstance(n, ast.Assign) and (
+            norm(n.targets[0]) == "Kd" or (isinstance(n.targets[0], ast.Subscript) and norm(n.targets[0].value) == "Kd"))
+            and not (isinstance(n.value, ast.Call) and call_name(n.value) in ("zeros", "zeros_like", "empty"))]
+        allocs = [n for n in ast.walk(f.node) if isinstance(n, ast.Assign) and norm(n.targets[0]) == "Kd"
+                  and isinstance(n.value, ast.Call) and call_name(n.value) in ("zeros", "empty")]
+        if not fills:
+            raise AnalysisError("%s: the conjugated operators Kd are no longer formed here" % f.short)
+        for st in fills:
+            ok = False
+            for x in ast.walk(st.value):
+                if isinstance(x, ast.Subscript) and norm(x.value) == "Km":
+                    ok = ok or any(norm(st.value) == idiom % norm(x) for idiom in ADJOINT_IDIOMS)
+            run.obligation(rid, f.short, ok, key="adjoint:" + norm(st.targets[0])[:20],
+                           message="%s forms the conjugate of the system operators as %s: the plain transpose is the Hermitian "
+                                   "conjugate only for real operators; in the eigenbasis of a complex Hermitian operator the "
+                                   "operator form then acts differently from the four-index form" % (f.short, norm(st.value)[:60]),
+                           loc=f.loc(st), sample={"statement": norm(st)[:80]})
+        for a_ in allocs:
+            dt = [norm(k_.value) for k_ in a_.value.keywords if k_.arg == "dtype"]
+            real = bool(dt) and dt[0] in ("numpy.float64", "REAL", "float", "qr.REAL", "numpy.double")
+            run.obligation(rid, f.short, not real, key="adjoint-storage",
+                           message="%s allocates the conjugated operators with the real element type %s: their imaginary parts "
+                                   "are dropped" % (f.short, dt[0] if dt else ""), loc=f.loc(a_), sample={"allocation": norm(a_)[:80]})
